@@ -397,6 +397,15 @@ func classify(a, b *T) (dataDiff, rootLeafless bool, depth int) {
 func modelApply(a *T, cs []*dagutils.Change, byCid map[string]*T) (*T, string) {
 	cur := a
 	for _, c := range cs {
+		if c.Path == "" && c.Type == dagutils.Mod {
+			// a Mod of the root itself: the root is replaced
+			t, ok := byCid[c.After.KeyString()]
+			if !ok {
+				return nil, "change refers to an unknown CID"
+			}
+			cur = t
+			continue
+		}
 		p := strings.Split(c.Path, "/")
 		var to *T
 		if c.Type != dagutils.Remove {
@@ -527,6 +536,13 @@ func runCase(r *eng.Run, st *stats, bl *builder, ds ipld.DAGService, fam string,
 	r.Outcome(strings.Join(compress(oc), ","))
 	_ = depth
 	// is the change list itself a correct description (model level)?
+	rootMod := false
+	for _, c := range cs {
+		if c.Type == dagutils.Mod && c.Path == "" {
+			rootMod = true
+		}
+	}
+	feat = append(feat, "root_mod_empty_path", fmt.Sprint(rootMod))
 	mres, why := modelApply(a, cs, bl.byCid)
 	sound := mres != nil && mres.key == b.key
 	if mres != nil && !sound {
